@@ -55,7 +55,7 @@ func zipContains(raw, sig []byte, msoCheck bool) bool {
 	if !b.advance(0x1E) {
 		return false
 	}
-	if bytes.HasPrefix(b, sig) {
+	if zipNameHasPrefix(raw, b, sig) {
 		return true
 	}
 
@@ -89,7 +89,7 @@ func zipContains(raw, sig []byte, msoCheck bool) bool {
 	if !b.advance(nextHeader) {
 		return false
 	}
-	if bytes.HasPrefix(b, sig) {
+	if zipNameHasPrefix(raw, b, sig) {
 		return true
 	}
 
@@ -104,11 +104,24 @@ func zipContains(raw, sig []byte, msoCheck bool) bool {
 		if !b.advance(nextHeader + 0x1E) {
 			return false
 		}
-		if bytes.HasPrefix(b, sig) {
+		if zipNameHasPrefix(raw, b, sig) {
 			return true
 		}
 	}
 	return false
+}
+
+// zipNameHasPrefix reports whether the file name of the local file header
+// whose name field starts at b begins with sig. b must be a suffix of raw.
+// The name length recorded in the header is honoured, so that the bytes
+// following a shorter name (extra field, file data) are not taken for the name.
+func zipNameHasPrefix(raw []byte, b readBuf, sig []byte) bool {
+	nameStart := len(raw) - len(b)
+	if nameStart < 0x1E {
+		return false
+	}
+	nameLen := int(binary.LittleEndian.Uint16(raw[nameStart-4:]))
+	return nameLen >= len(sig) && bytes.HasPrefix(b, sig)
 }
 
 // APK matches an Android Package Archive.
